@@ -180,6 +180,10 @@ def run_many(sel, props=None, all_props=False, nworkers=4, seed=None):
         for pid in todo:
             t0 = time.time()
             rc, out = w.check(pid, seed=seed)
+            if rc == 1 and os.environ.get("FCV_HARVEST") == "1":
+                import corpus
+                with lock:
+                    corpus.harvest(out, "%s %s" % (os.path.basename(SEEDED), n))
             first = ""
             for line in out.splitlines():
                 if line.startswith("  ") and not first:
